@@ -151,17 +151,7 @@ func genWalks(g *Gen, w wWorld) []walkJ {
 	}
 	// candidate start nodes and policy targets: everything except map-entry messages and their
 	// fields (the property excludes them from every walk; starting *at* one is outside its domain)
-	inEntry := func(rf ref) bool {
-		ms := w.Files[rf.File].Msgs
-		p := rf.Path
-		for len(p) >= 2 && (p[0] == 4 || p[0] == 3) && p[1] < len(ms) {
-			if ms[p[1]].Head.MapEntry {
-				return true
-			}
-			ms, p = ms[p[1]].Nested, p[2:]
-		}
-		return false
-	}
+	inEntry := func(rf ref) bool { return inMapEntry(w, rf) }
 	var all []ref
 	for _, e := range allEntities(r) {
 		if !inEntry(e.ref) {
